@@ -275,6 +275,9 @@ func (c *Ctx) WhoWrites(prop string) {
 			if prog.IsTestish(prog.PkgPathOf(caller)) || rec[caller] || caller == s.ImportFn {
 				continue
 			}
+			if c.onlyCalledFrom(caller, map[*ssa.Function]bool{s.ImportFn: true}, 2) {
+				continue // a helper of the rules-level import
+			}
 			if !c.onlyCalledFrom(caller, entries, 2) {
 				bad++
 				c.R.Fail(rule, Fn(caller)+":recorder-caller", c.Pos(cs), "a watermark recorder ("+Fn(f)+") is called from outside rule evaluation: records can be written without the key lock and after newer approvals (a stale value put back)", "recorders are called only by the rule entry points", nil)
